@@ -663,6 +663,13 @@ class Fn:
                 e = E('binop', op=op, a=inner.args[0], b=inner.args[1], bb=bb, info={'checked': True, 'line': t.get('line')})
                 e.pos = Pos(bb, len(self.blocks[bb]['st']))
                 return e
+        if args and nm.rsplit('::', 1)[-1] in ('expect', 'unwrap') and 'esult' in nm:
+            # `T::try_from(x).unwrap()` between integer types is `x as T` with the fit asserted: the value is the cast's
+            inner = args[0].strip()
+            m = re.match(r'^<([iu](?:8|16|32|64|128|size)) as (?:std|core)::convert::TryFrom<[iu](?:8|16|32|64|128|size)>>::try_from$', inner.op or '') \
+                if inner.kind == 'call' else None
+            if m and len(inner.args) == 1:
+                return E('cast', a=inner.args[0], info={'ck': 'IntToInt', 'ty': m.group(1), 'checked': True})
         e = E('call', op=callee_name(t), args=args, bb=bb,
                  info={'line': t.get('line'), 'callee': t.get('calleep'), 'gen': t.get('gen', ''),
                        'local': t.get('local'), 'key': t.get('res') or t.get('callee')})
